@@ -511,7 +511,7 @@ theorem fit_exact (n : Nat) (hd : FitDomain caps mr ts tol E (n : ℝ) V P)
       |b'.charge - init - E| < tol * cap ∧
       (ts ≤ (closedInitSoc mr ts E (n : ℝ) V P cap).2.2 → b'.charge - init = E) := by
   obtain ⟨-, hc, -, -, s, hi, hs1, hflow, -, hcl⟩ := fit_main hd h
-  obtain ⟨-, -, -, -, b, hb, hbc, hbch⟩ := init_le_capacity hd h (mr * V / 1000) 0 .continuous
+  obtain ⟨-, -, -, hic, b, hb, hbc, hbch⟩ := init_le_capacity hd h (mr * V / 1000) 0 .continuous
   have hfb : FitBatt cap (mr * V / 1000) ts b := by
     unfold mkTwoStage at hb
     split at hb
@@ -521,7 +521,7 @@ theorem fit_exact (n : Nat) (hd : FitDomain caps mr ts tol E (n : ℝ) V P)
       · split at hb
         · exact absurd hb (by simp)
         · injection hb with hb; subst hb; exact ⟨rfl, rfl, rfl, rfl, rfl, rfl⟩
-  obtain ⟨b', hch, -, -, hsoc⟩ := chargeN_flow hd.mr_pos hd.V_pos hd.P_pos hc hd.ts_lt n b hfb
+  obtain ⟨b', hch, -, -, hsoc⟩ := chargeN_flow hd.mr_pos hd.V_pos hd.P_pos hc hd.ts_lt n b hfb (by rw [hbch]; exact hic)
   refine ⟨b, b', hb, hch, ?_, ?_⟩
   · have hs : b.charge / cap = s := by rw [hbch, hi]; field_simp
     rw [hs] at hsoc
